@@ -38,7 +38,7 @@ def run(ctx):
 def replay(rp):
     f = rp.get("failure") or {}
     inp = f.get("input") or {}
-    if inp.get("kind") == "illposed":
+    if inp.get("kind") in ("illposed", "otbs_direct"):
         return o_front.replay_illposed(inp)
     if inp.get("kind") == "sylvdiag":
         return k_sylvdiag.replay_sylvdiag(inp)
